@@ -71,6 +71,13 @@ class C03(Prop):
             pick = maps if (n == 1 or thorough) else rng.sample(maps, 2500)
             for i, m in enumerate(pick):
                 yield {"k": "tf", "kind": "list", "m": m, "ins": allp, "pkg": "py"}
+                if i % 11 == 0:
+                    # element types of the user's arrays (operand and / or map); a refusal is accepted
+                    DTS = (("uint8", "int64"), ("int8", "int32"), ("uint64", "uint8"), ("float64", "int64"), ("uint8", "uint8"), ("int32", "float64"))
+                    yield {"k": "tf", "kind": "list", "m": m, "ins": allp, "dt": list(DTS[(i // 11) % 6]), "mdt": (i // 11) % 3 == 0, "pkg": "py"}
+                if i % 9 == 0:
+                    # operand and map are one and the same object (squaring a map in place)
+                    yield {"k": "tf", "kind": "selfmap", "m": m, "ins": m}
                 if i % 50 == 0:
                     yield {"k": "tf", "kind": "list", "m": m, "ins": [], "n": n}
                     yield {"k": "tf", "kind": "list", "m": m, "ins": [allp[(i * 13 + 5) % len(allp)]]}
@@ -112,6 +119,8 @@ class C03(Prop):
             ins = [[rng.randrange(4) for _ in range(n)] + [rng.randrange(4)] for _ in range(40)]
             yield {"k": "tf", "kind": "list", "m": m, "ins": ins}
         # one entangling map across the 64-bit word boundary (66 qubits, from a TLC walk): dense and sparse operators
+        for n, m in self.big:
+            yield {"k": "tf", "kind": "selfmap", "m": m, "ins": m}
         for n, m in self.wide:
             ins = [[rng.randrange(4) if (t % 2 == 0 or rng.random() < 0.1) else 0 for _ in range(n)] + [rng.randrange(4)] for t in range(40)]
             for w in ins[:8]:
@@ -163,7 +172,8 @@ class C03(Prop):
     def execute(self, scn, be):
         k = scn["k"]
         if k == "tf":
-            return [self._tf(scn, be)]
+            r_ = self._tf(scn, be)
+            return [r_] if r_ is not None else []
         if k == "embed":
             return [self._embed(scn, be)]
         if k == "combine":
@@ -202,6 +212,21 @@ class C03(Prop):
                 rec["layout"] = [lay or "", mlay or ""]
             n = scn["n"] if "n" in scn else len(ins[0]) - 1
             mk = mask_of(be, qs, n) if qs else None
+            if kind == "list" and scn.get("dt"):
+                rec["dt"] = scn["dt"]
+                try:
+                    L = be.retype(be.plist(ins, n), *scn["dt"])
+                    if scn.get("mdt"):
+                        M = be.retype(M, *scn["dt"])
+                    L.transform_by(M, mk) if qs else L.transform_by(M)
+                    rec["outs"] = be.p_list(L)
+                except Exception:
+                    return None
+                return rec
+            if kind == "selfmap":
+                M.transform_by(M)
+                rec["outs"] = be.p_list(M)
+                return rec
             if kind == "list":
                 L = be.plist(ins, n)
                 if lay:
